@@ -283,6 +283,13 @@ theorem alpnMatch_eq_alpnRule (c : Ctx) (protos : List Name)
   · rintro ⟨q, hq, h⟩
     exact ⟨q, hq, (mem_buildMatch c _).mpr (Or.inr h)⟩
 
+/-- the two recorded exceptions to "plaintext only when inspector mode allows it", as one hypothesis: the connection is a
+TCP connection (`tcp`; a unix-socket listener is not) and some context of the listener is ready (`en`; with every sds
+secret pending none is). Outside it `serverContextManager.Conn` passes the connection through. -/
+def ReadyTcp (tcp en : Bool) : Prop := tcp = true ∧ en = true
+
+instance (tcp en : Bool) : Decidable (ReadyTcp tcp en) := by unfold ReadyTcp; infer_instance
+
 def ofOpt : Option Nat → Outcome
   | some i => .config (some i)
   | none => .errNoCert
